@@ -260,7 +260,7 @@ def compare_lines(lines, model_stream, res, label):
     for line in lines:
         if line.startswith("#ORACLE-FAIL\t"):
             _, what, replay = (line.split("\t", 2) + ["", ""])[:3]
-            res.violations.append((f"[{label}] {what}", replay))
+            res.violations.append((f"[{label}] {what}", replay.replace("\\n", "\n")))
         elif line.startswith("#STAT\t"):
             _, k, v = (line.split("\t", 2) + ["", ""])[:3]
             res.stats[f"{label}.{k}"] = v
